@@ -61,6 +61,11 @@ pub fn check_text(enc: &'static Encoding, algo: EncAlgo, src: Src, repl: bool, t
             return Some(format!("[through a {}-byte output buffer] bytes differ: crate {} Standard {}", h2.caps[0], hex(&out2.out), hex(&want_bytes)));
         }
     }
+    if src == Src::Utf8 && repl {
+        if let Some(m) = one_shot_vs_model(enc, algo, text) {
+            return Some(m);
+        }
+    }
     let oe = out.encoder_encoding.map(|e| e.name());
     if oe != Some(model_enc::output_encoding_name(enc)) || Some(enc.output_encoding().name()) != oe {
         return Some(format!("Encoder::encoding() is {:?}, output_encoding() is {}, the Standard's output encoding is {}", oe, enc.output_encoding().name(), model_enc::output_encoding_name(enc)));
@@ -144,6 +149,32 @@ fn check_single(enc: &'static Encoding, algo: EncAlgo, cp: u32) -> Option<(Src, 
         }
     }
     None
+}
+
+/// the one-shot `Encoding::encode` is an encoder route too: same bytes, same had-unmappables answer
+fn one_shot_vs_model(enc: &'static Encoding, algo: EncAlgo, text: &[u32]) -> Option<String> {
+    if text.iter().any(|c| is_sur(*c)) {
+        return None;
+    }
+    let s: String = text.iter().map(|c| char::from_u32(*c).unwrap()).collect();
+    let want = model_enc::encode(algo, text, true);
+    let r = fw::catch(|| {
+        let (b, _, h) = enc.encode(&s);
+        (b.into_owned(), h)
+    });
+    match r {
+        Err(p) => Some(format!("[one-shot Encoding::encode] panicked: {}", p)),
+        Ok((b, h)) => {
+            if b != want.bytes {
+                let pos = b.iter().zip(want.bytes.iter()).position(|(x, y)| x != y).unwrap_or(b.len().min(want.bytes.len()));
+                Some(format!("[one-shot Encoding::encode] bytes differ at offset {}: crate ...{} Standard ...{}", pos, hex(&b[pos.saturating_sub(4)..(pos + 12).min(b.len())]), hex(&want.bytes[pos.saturating_sub(4)..(pos + 12).min(want.bytes.len())])))
+            } else if h != !want.unmappables.is_empty() {
+                Some(format!("[one-shot Encoding::encode] had_unmappables = {} but the Standard's encoder reports {} unmappable(s)", h, want.unmappables.len()))
+            } else {
+                None
+            }
+        }
+    }
 }
 
 /// lean path for short surrogate-free texts: direct API calls, slice and Vec methods, the end of
@@ -468,6 +499,44 @@ pub fn run(ctx: &Ctx) -> i32 {
         });
         total.merge(st);
         total.exhaustive.push("per encoder: every BMP scalar (and every 0x101st astral scalar) directly after and directly before each of 3-6 state-setting contexts (two-byte character, katakana, Roman-state character, ASCII, unmappable), UTF-8 and UTF-16 sources, raw and replacement, slice and Vec methods, end of stream on the data call or on an empty call".into());
+    }
+
+    // (b1) one control / boundary character at every offset 0..=200 of an ASCII text (block-wise
+    // pre-scans of the one-shot method and of the ISO-2022-JP encoder must not skip SO / SI / ESC)
+    if !fw::should_stop() {
+        let e = encs::all();
+        let st = par_run(ctx, e.len(), |part, st| {
+            let enc = e[part];
+            let algo = enc_algo_for(enc);
+            let mut drv = EncDriver::new();
+            for c in [0x0Eu32, 0x0F, 0x1B, 0x7F, 0x00, 0x80, 0xA5] {
+                for p in 0..=200usize {
+                    if fw::should_stop() {
+                        return;
+                    }
+                    for t in [0usize, 1, 70] {
+                        let mut text: Vec<u32> = (0..p).map(|i| 0x20 + (i % 90) as u32).collect();
+                        text.push(c);
+                        text.extend((0..t).map(|i| 0x41 + (i % 26) as u32));
+                        st.evals += 1;
+                        st.nontrivial_distinct();
+                        st.class("control-or-boundary-character-in-long-ascii");
+                        if let Some(msg) = check_text(enc, algo, Src::Utf8, true, &text, &mut drv) {
+                            st.violations.push(violation(enc, Src::Utf8, true, &text, msg));
+                            return;
+                        }
+                        if p % 16 == 15 || p % 16 == 0 {
+                            if let Some(msg) = check_text(enc, algo, Src::Utf16, false, &text, &mut drv) {
+                                st.violations.push(violation(enc, Src::Utf16, false, &text, msg));
+                                return;
+                            }
+                        }
+                    }
+                }
+            }
+        });
+        total.merge(st);
+        total.exhaustive.push("per encoding: SO / SI / ESC / DEL / NUL / U+0080 / U+00A5 at every offset 0..=200 of an ASCII text with tails of 0 / 1 / 70 characters, streaming and one-shot".into());
     }
 
     // (b2) two non-ASCII characters inside a long ASCII run (first at offsets 0..=33, second at
